@@ -288,7 +288,7 @@ def b_histogram_tagger(tier):
     from pymbolic.mapper.evaluator import EvaluationMapper
     b = BoundedRun("histogram-tagger", rule="CSEWalkMapper + CSETagMapper on every expression of the pool and on sums / products of two pool expressions: the histogram equals an "
                    "independent count of structurally equal subexpression occurrences; the tagged expression has the input's value in every environment of the box; with one "
-                   "evaluator every operation (exactly equal subexpression) that occurred more than once in the input is performed once",
+                   "evaluator every operation (exactly equal subexpression) that occurred more than once in the input is performed once; no wrapper directly around a wrapper (inputs with existing wrappers included)",
                    bound="20 pool expressions + 190 pairs x 3 environments", functions=["CSEWalkMapper.visit", "CSETagMapper.map_*"])
     pl = [e for e in pool() if not any(isinstance(n, p.CommonSubexpression) and n.prefix for n in _nodes(e))]
     exprs = list(pl) + [p.Sum((u, v)) for u, v in itertools.combinations(pl, 2)][: (190 if tier == "thorough" else 60)]
@@ -296,6 +296,9 @@ def b_histogram_tagger(tier):
     x_, y_, z_ = p.Variable("x"), p.Variable("y"), p.Variable("z")
     s_ = p.Sum((x_, y_))
     a_, b_ = p.Product((s_, s_, z_)), p.Product((s_, z_))
+    # inputs that already contain (prefix-free) wrappers around something that repeats
+    c_ = p.CommonSubexpression(p.Sum((p.Call(p.Variable("f"), (x_, y_)), 1)))
+    exprs += [p.Sum((c_, p.Product((c_, 2)))), p.Product((c_, c_)), p.Sum((p.CommonSubexpression(s_), s_)), p.Sum((p.CommonSubexpression(a_), a_, b_))]
     exprs += [p.Sum((a_, p.Sum((a_, b_)))), p.Sum((a_, a_)), p.Product((p.Power(a_, 2), a_, s_)), p.Sum((p.Quotient(a_, b_), p.Quotient(a_, b_), b_)),
               p.Sum((p.Call(p.Variable("f"), (s_, b_)), p.Call(p.Variable("f"), (s_, b_)), s_))]
     envs = [{"x": vx, "y": vy, "z": 3, "f": lambda a, c: a * 7 + c} for vx, vy in [(2, 5), (-1, 4), (Fraction(1, 2), 3)]]
@@ -315,8 +318,8 @@ def b_histogram_tagger(tier):
             b.fail(Failure("histogram-tagger", f"what=tag-raised expr={e!r}", dict(kind="hist", expr=repr(e)), expected="a tagged expression", actual=outcome.describe(r)[:150],
                            functions=["CSETagMapper"]))
             continue
-        why = None
-        for env in envs:
+        why = "a wrapper directly around a wrapper" if (has_double(r[1]) and not has_double(e)) else None
+        for env in (envs if why is None else ()):
             ev, counts = counting_evaluator(env)
             got = outcome.run(lambda: ev(r[1]))
             want = outcome.run(lambda: EvaluationMapper(env)(e))
